@@ -22,6 +22,21 @@ GAMMA = "ComplexGammatoneFilterBank"
 
 V = z3.Function("acc_vertex", z3.IntSort(), z3.RealSort())
 CH = z3.Function("acc_center", z3.IntSort(), z3.RealSort())
+SL = z3.Function("acc_support_left", z3.IntSort(), z3.IntSort())
+SR = z3.Function("acc_support_right", z3.IntSort(), z3.IntSort())
+
+
+def _ms_pairs(ev, res, n):
+    """res is a sequence of n pairs, pair k == (left_k * 1000 / rate, right_k * 1000 / rate)"""
+    if not isinstance(res, SeqVal):
+        return z3.BoolVal(False)
+    k = z3.Int("acc_k")
+    elt = res.getter(k)
+    if not (isinstance(elt, tuple) and len(elt) == 2):
+        return z3.BoolVal(False)
+    r = z3.Real("rate")
+    return z3.And(Z(res.n) == Z(n), z3.ForAll([k], z3.Implies(z3.And(k >= 0, k < Z(n)), z3.And(
+        api.to_real(Z(elt[0])) * r == z3.ToReal(SL(k)) * 1000, api.to_real(Z(elt[1])) * r == z3.ToReal(SR(k)) * 1000))))
 
 
 def _same(ev, a, b):
@@ -71,6 +86,7 @@ CONSTS = {
     "SEQ_IS": SpecFn(_seq_is),
     "PAIRS_ARE": SpecFn(_pairs_are),
     "N": SpecFn(lambda ev: ev.ex.ctx["n"]),
+    "MS_PAIRS": SpecFn(_ms_pairs),
 }
 
 
@@ -88,6 +104,15 @@ def _fields(kind, st):
         return n, {"_wrap_below": api.sym("wrap0", "bool"), "_rate": api.sym("rate", "real"), "_centers_hz": SeqVal(n, lambda j: CH(Z(j))),
                    "_supports_hz": Opaque("SUPPORTS_HZ", "tuple"), "_supports": Opaque("SUPPORTS", "tuple"),
                    "_scale_l2_norm": api.sym("l2_0", "bool"), "_erb": api.sym("erb0", "bool"), "_order": api.sym("order0")}
+    if kind == "abstract_computer":
+        # the base class reads its subclass's accessors (each under contract above): modelled as the values they return
+        r = api.sym("rate", "real")
+        st.assume(r > 0)
+        return n, {"frame_length": api.sym("L"), "frame_shift": api.sym("s"), "sampling_rate": r}
+    if kind == "abstract_bank":
+        r = api.sym("rate", "real")
+        st.assume(r > 0)
+        return n, {"sampling_rate": r, "supports": SeqVal(n, lambda j: (SL(Z(j)), SR(Z(j))))}
     raise KeyError(kind)
 
 
@@ -123,16 +148,19 @@ def _table():
               ("filters", cls, "scaled_l2_norm", "center_bank", "result_is_the_l2_flag", "SAME(result, self._scale_l2_norm)"),
               ("filters", cls, "erb", "center_bank", "result_is_the_erb_flag", "SAME(result, self._erb)")]
     T += [("filters", GAMMA, "order", "center_bank", "result_is_the_order", "SAME(result, self._order)")]
+    T += [("compute", "FrameComputer", "frame_length_ms", "abstract_computer", "frame_length_in_milliseconds", "result * self.sampling_rate == self.frame_length * 1000"),
+          ("compute", "FrameComputer", "frame_shift_ms", "abstract_computer", "frame_shift_in_milliseconds", "result * self.sampling_rate == self.frame_shift * 1000"),
+          ("filters", "LinearFilterBank", "supports_ms", "abstract_bank", "supports_in_milliseconds_pair_by_pair", "MS_PAIRS(result, N())")]
     return T
 
 
 # which accessors each property observes
 PROPS = {
     "C04": lambda r: r[2] == "started",
-    "C02": lambda r: r[0] == "compute" and r[2] in ("frame_style", "frame_length", "frame_shift", "sampling_rate", "kaldi_shift", "bank", "includes_energy") and r[1] != SI,
-    "C03": lambda r: r[0] == "compute" and r[1] == SI and r[2] != "started",
+    "C02": lambda r: r[0] == "compute" and r[2] in ("frame_style", "frame_length", "frame_shift", "sampling_rate", "kaldi_shift", "bank", "includes_energy", "frame_length_ms", "frame_shift_ms") and r[1] != SI,
+    "C03": lambda r: r[0] == "compute" and (r[1] == SI or r[1] == "FrameComputer") and r[2] != "started",
     "C05": lambda r: r[0] == "filters" and r[2] in ("centers_hz", "supports_hz", "num_filts", "sampling_rate", "scaled_l2_norm", "erb", "order"),
-    "C07": lambda r: r[0] == "filters" and r[2] in ("is_real", "is_analytic", "is_zero_phase", "supports", "supports_hz"),
+    "C07": lambda r: r[0] == "filters" and r[2] in ("is_real", "is_analytic", "is_zero_phase", "supports", "supports_hz", "supports_ms"),
 }
 
 
@@ -250,4 +278,76 @@ def unit_ctors(prop):
                    "C19": ("contracts.scales", "to_case")}[prop]
         return run_parallel("constructors", jobs, to_case=getattr(importlib.import_module(mod), fn), replay_module="rtc." + prop.lower())
     unit.__name__ = "constructors"
+    return unit
+
+
+# ------------------------------------------------------------------------------------------ torch modules: constructors, delegating forwards, check_in
+CTORS += [
+    ("torch", "PyTorchPreemphasize", {"coeff": "coeff"}, None, {"coeff": "real"}, ("C14",)),
+    ("torch", "PyTorchPostProcessorWrapper", {"postprocessor": "postprocessor"}, None, {"postprocessor": "opaque"}, ("C14",)),
+    ("torch", "PyTorchShortIntegrationFrameComputer", {"si_frame_computer": "si_frame_computer"}, None, {"si_frame_computer": "opaque"}, ("C14",)),
+]
+
+# forward(sig) of the two wrapper modules is exactly one call of the (contracted) helper on the caller's tensor
+DELEGATES = [("PyTorchPostProcessorWrapper", "forward", "_postprocessor_appy", "postprocessor"),
+             ("PyTorchShortIntegrationFrameComputer", "forward", "_compute_full", "si_frame_computer")]
+
+
+def generate_delegate(prop, idx):
+    from contracts.registry import run_contract
+    cls, name, helper, field = DELEGATES[idx]
+    inner = Opaque("WRAPPED", "obj")
+
+    def setup(ex, st):
+        api.mk_obj(st, "self", cls, {field: inner})
+        st.env["sig"] = Opaque("SIG", "tensor")
+        st.ghost["calls"] = []
+        ex.entry_fields = dict(st.fields)
+
+    def h_helper(ex, st, o, args, kwargs, node, ev):
+        st.ghost["calls"] = st.ghost["calls"] + [(tuple(args), dict(kwargs))]
+        return Opaque("HELPER_RESULT", "tensor")
+
+    def ok(ev, res):
+        calls = ev.st.ghost["calls"]
+        if len(calls) != 1 or not (isinstance(res, Opaque) and res.term == "HELPER_RESULT"):
+            return False
+        args, kw = calls[0]
+        return len(args) == 1 and not kw and isinstance(args[0], Opaque) and args[0].term == "SIG"
+
+    def unchanged(ev):
+        now = {k: v for k, v in ev.st.fields.items() if k[0] == "self"}
+        return set(now) == set(ev.ex.entry_fields) and all(now[k] is ev.ex.entry_fields[k] for k in now)
+
+    c = Contract(target=f"torch:{cls}.{name}", uses=["A-PYSEM"], consts={"DELEGATED": SpecFn(ok), "UNCHANGED": SpecFn(unchanged)},
+                 handlers={f"{cls}.{helper}": h_helper},
+                 ensures=[("one_call_of_the_helper_on_the_callers_tensor_result_returned_as_is", "DELEGATED(result)"), ("module_state_untouched", "UNCHANGED()")])
+    return run_contract(prop, ("torch", f"{cls}.{name}"), c, [("", setup)], name="torch_delegates", fname=f"{cls}.{name}")
+
+
+def generate_check_in(prop):
+    """check_in(name, val, choices): ValueError exactly when val is not one of the choices (a set display of literals at every call site)"""
+    from contracts.registry import run_contract
+
+    def setup(ex, st):
+        st.env.update({"name": Opaque("NAME", "str"), "val": api.sym("val", "str"), "choices": frozenset({"causal", "centered"})})
+
+    def h_join(ex, st, o, args, kwargs, node, ev):
+        return Opaque("JOINED", "str")
+
+    c = Contract(target="torch:check_in", uses=["A-PYSEM"], raises={"ValueError": "not (val == 'causal' or val == 'centered')"},
+                 handlers={"str.join": h_join, "sorted": lambda ex, st, args, kwargs, node, ev: Opaque("SORTED", "list")},
+                 ensures=[("returns_nothing", "result is None")])
+    return run_contract(prop, ("torch", "check_in"), c, [("", setup)], name="check_in", fname="check_in")
+
+
+def unit_torch_small(prop):
+    def unit(tier, known):
+        from contracts.registry import run_parallel
+        from contracts import torch_wrappers
+        jobs = [("contracts.accessors", "generate_ctor", (prop, i)) for i, r in enumerate(CTORS) if prop in r[5]]
+        jobs += [("contracts.accessors", "generate_delegate", (prop, i)) for i in range(len(DELEGATES))]
+        jobs += [("contracts.accessors", "generate_check_in", (prop,))]
+        return run_parallel("torch_small", jobs, to_case=torch_wrappers.to_case, replay_module="rtc.c14")
+    unit.__name__ = "torch_small"
     return unit
